@@ -616,3 +616,10 @@ def c17_dtype(ctx, case):
          "input is not modified")
 def c17_layout(ctx, case):
     _dt.layout_body(ctx, case, _dt.TABLES["C17"])
+
+
+@sub("C17.single", strategy=_dt.single_case(sorted(_dt.TABLES["C17"])), quick=200, thorough=4000,
+     doc="float32 / complex64 samples are taken for what they are: same result (to 1e-3 of the largest value) as the same values "
+         "in double precision")
+def c17_single(ctx, case):
+    _dt.single_body(ctx, case, _dt.TABLES["C17"])
